@@ -118,6 +118,17 @@ CLAIMED = {
              "XmlValue graph run on the real code under ASan/UBSan with a watchdog; TLC validates every logged outcome.",
         ref="5/C16", technique="TLA+ model checking (TLC) + transition-covering input generation + state-graph replay + TLC trace validation",
         note="Accepted language is Layer 2 only; a comment directly after a name without white space is not demanded; 7-12 symbol alphabets exhaustively."),
+    "C09": dict(
+        text="TLC model-checks RefCountImpl.tla - the reference-count protocol of String / Variant (copy shares, write clones unless "
+             "sole owner) and RefCount::Ptr (assignment, self-assignment, swap, reset, destruction) at the granularity of the atomic "
+             "operations - for multi-thread programs over distinct handles to common payloads: never touched after release, released "
+             "exactly once and only after the last handle, in-place write only by the sole owner, termination. The state graphs give "
+             "schedules which the REAL classes follow under the cooperative scheduler (the NSTD_VERIF hook in Atomic.hpp makes every "
+             "atomic access a scheduling point); random programs of 2-4 threads run under random schedules. Handle values after every "
+             "operation and pointee destructions are validated by TLC against RefHandles; ASan / LeakSanitizer observe use-after-"
+             "release, double release and leaks.",
+        ref="5/C09", technique="TLA+ model checking (TLC) + schedule replay through cooperative scheduler with atomic-access hooks + TLC trace validation",
+        note="Sequential consistency at the granularity of atomic accesses; plain reads of the counter are not scheduling points; Xml::Variant's sharing is covered single-threaded by C16."),
 }
 
 PENDING_REASON = "check not built yet in this revision of /verif (planned: see DESIGN.md section 5); not claimed until its machinery runs"
